@@ -1,5 +1,6 @@
 import OnlVerif.Lemmas.ResStep
 import OnlVerif.Lemmas.StrandStep
+import OnlVerif.Lemmas.StrandDemo
 /-!
 # C07 — containers and stores are bounded, conservative, ordered, never strand a request
 
@@ -379,6 +380,19 @@ example :
     · intro _ e he
       rw [hres] at he
       split at he <;> cases he
+
+/-! non-vacuity by a run (`Lemmas/StrandDemo.lean`): `Container(capacity=10, init=7)`; one process issues `put(5)`
+(blocked) and will cancel it at time 1, a second one issues `put(1)` (queued behind).  After two kernel steps both are
+queued and only the timeout at 1 is scheduled: all hypotheses hold and the head `put(5)` is indeed blocked.  Four steps
+later (the cancel and what it triggered) the queue is empty and the level is 8: the `put(1)` was not stranded. -/
+example : SInv Demo.conS0 ∧ DReach Demo.conBody 3 Demo.conS0 Demo.conS2 ∧ AboutToAdvance Demo.conS2 ∧
+    (Demo.conS2.res 0).putQ.length = 2 ∧
+    (∀ e, (Demo.conS2.res 0).putQ.head? = some e → canPut (prePut Demo.conS2 0 e) 0 e = false) ∧
+    DReach Demo.conBody 3 Demo.conS0 Demo.conS6 ∧ AboutToAdvance Demo.conS6 ∧
+    (Demo.conS6.res 0).putQ.length = 0 ∧ (Demo.conS6.res 0).level = 8 :=
+  ⟨Demo.conS0_sinv, Demo.conS2_reach, Demo.conS2_advance, Demo.conS_facts.1,
+    (heads_unsatisfiable_at_advance _ 3 _ _ Demo.conS0_sinv Demo.conS2_reach Demo.conS2_advance 0).1,
+    Demo.conS6_reach, Demo.conS6_advance, Demo.conS_facts.2.2.1, Demo.conS_facts.2.2.2⟩
 
 /-! ## ---- end: "never strand a request" ---- -/
 
